@@ -138,6 +138,14 @@ def semantic_texts(seed, quick):
         ('ident/single-letters', 'root packet a { u8 b, c d, match b as e { 1 : c, }, repeat c, g { u8 h, }, }\npacket c { u8 f, }'),
         ('ident/long', 'root packet %s { u8 %s, }' % ('P' + 'a' * 300, 'f' + 'b' * 300)),
     ]
+    longkey = '"' + 'K' * 150 + '"'
+    rec += [
+        ('long/string-key-in-list', 'root packet A { string K, match K as B { [%s, "b", "c", "d", "e", "f", "g"] : C, ["h", %s] : C, %s : C, }, }\npacket C { }' % (longkey, longkey.replace('K', 'L'), longkey.replace('K', 'M'))),
+        ('long/digits-key-list', 'root packet A { u64 K, match K as B { [%s] : C, }, }\npacket C { }' % ', '.join(str(10 ** 18 + i) for i in range(40))),
+        ('long/doc', 'root packet A { u8 X `%s`, }' % ('d' * 5000)),
+        ('long/option-string', 'options { JavaPackage = "%s"; GoPackage = "%s"; }\nroot packet A { u8 X, }' % ('a.' * 400 + 'b', 'p' * 900)),
+        ('long/many-attributes', 'root packet A { %s char[4] X, }' % ' '.join("@tag(%d) @leftPad('0')" % i for i in range(60))),
+    ]
     # every option with every kind of value the grammar allows (legal and illegal ones, the empty string, one character)
     optvals = ['""', '"a"', '"ab"', '0', '7', '00', 'true', 'false', 'u8', 'u64', 'i16', 'f32', 'char', 'string', 'char[]', 'char[3]', 'zchar[0]', "' '", "'0'", "'\\x00'", '"\' \'"', '"u16"', '"true"']
     for on in ['StringPrefixLenType', 'ArrayPrefixLenType', 'LittleEndian', 'FixedStringPadChar', 'FixedStringPadFromLeft', 'JavaPackage', 'GoPackage', 'GoModule', 'NoSuchOption', 'littleendian']:
